@@ -7,6 +7,8 @@ argv[1] = behaviour:
   never_read        never reads stdin; sleeps
   flood             writes notifications to stdout endlessly
   flood_graceful    the same, but exits with status 0 on SIGTERM
+  flood_junk        floods its stdout with short lines that are not messages ("x" - progress dots, log lines on stdout),
+                    as fast as the pipe takes them (non-blocking writes, retried); dies at once on SIGTERM
   close_stdout      closes stdout, then sleeps
   close_stdin       closes stdin, then sleeps (still holds stdout)
   slow_start:<s>    sleeps s seconds, then behaves well
@@ -101,6 +103,17 @@ elif beh == "flood_graceful":
             os.write(1, blob)
     except OSError:
         os._exit(0)
+elif beh == "flood_junk":
+    out({"jsonrpc": "2.0", "method": "notifications/ready"})
+    os.set_blocking(1, False)
+    blob = b"x\n" * 2048
+    while True:
+        try:
+            os.write(1, blob)
+        except BlockingIOError:
+            pass
+        except BaseException:
+            os._exit(0)
 elif beh == "flood":
     out({"jsonrpc": "2.0", "method": "notifications/ready"})
     blob = (json.dumps({"jsonrpc": "2.0", "method": "notifications/message",
